@@ -21,8 +21,10 @@ Open Scope list_scope.
    6 lines_span()/lines() = the consecutive lines meeting [off, b], for every boundary b >= off;
    7 rendering an error built from the position: no panic, and exactly the expected layout - line
      number, that line's text, marker under the column;
-   8 rendering an error built from the span (off, b): no panic, and it shows them (Spec.span_shows). *)
-Definition C10_statement : Prop :=
+   8 rendering an error built from the span (off, b): no panic, and it shows them (Spec.span_shows).
+   fx selects the model of Error::new_from_span: false = the code as shipped, true = with
+   fixes/C10-1-continued-line-visualize.patch (the driver probes which one the tree is). *)
+Definition C10_statement (fx : bool) : Prop :=
   forall (s : str) (off : nat), boundary s off ->
     let p := before s off in
     let q := after s off in
@@ -36,13 +38,14 @@ Definition C10_statement : Prop :=
        pair_line_col_upto s b off = line_col s off /\
        lines_span s (off, b) = Ok (lines_meeting s off b) /\
        lines s (off, b) = Ok (map (text_of s) (lines_meeting s off b)) /\
-       span_render_ok p (mid s off b) (after s b)).
+       span_render_ok fx p (mid s off b) (after s b)).
 
-(* The full statement is FALSE of the code (four classes of renderings, see Spec.KnownClass_pos /
-   KnownClass_span and the witnesses below).  What is proved is the same statement with clauses 7
+(* The full statement is FALSE of the code (four classes of renderings as shipped, three with the
+   patch: K2 is the class the patch removes; see Spec.KnownClass_pos / KnownClass_span and the
+   witnesses below).  What is proved is the same statement with clauses 7
    and 8 restricted to the complement of the decidable known classes - and, for ALL inputs (known
    classes included), that rendering never panics. *)
-Definition C10_statement_outside_known_classes : Prop :=
+Definition C10_statement_outside_known_classes (fx : bool) : Prop :=
   forall (s : str) (off : nat), boundary s off ->
     let p := before s off in
     let q := after s off in
@@ -57,12 +60,13 @@ Definition C10_statement_outside_known_classes : Prop :=
        pair_line_col_upto s b off = line_col s off /\
        lines_span s (off, b) = Ok (lines_meeting s off b) /\
        lines s (off, b) = Ok (map (text_of s) (lines_meeting s off b)) /\
-       (KnownClass_span p (mid s off b) (after s b) = false -> span_render_ok p (mid s off b) (after s b)) /\
-       (forall msg, exists out, render_span s (off, b) msg = Ok out)).
+       (KnownClass_span fx p (mid s off b) (after s b) = false -> span_render_ok fx p (mid s off b) (after s b)) /\
+       (forall msg, exists out, render_span fx s (off, b) msg = Ok out)).
 
-Theorem C10_outside_known_classes : C10_statement_outside_known_classes.
+(* for the shipped AND for the patched model; with fx = true the class K2 is empty (C10_K2_empty_when_patched) *)
+Theorem C10_outside_known_classes : forall fx, C10_statement_outside_known_classes fx.
 Proof.
-  intros s off Hb p q. subst p q.
+  intros fx s off Hb p q. subst p q.
   split; [exact (top_line_col s off Hb)|].
   split; [exact (top_pair_line_col s off Hb)|].
   split; [exact (top_line_of s off Hb)|].
@@ -74,8 +78,8 @@ Proof.
   split; [exact (top_pair_line_col_upto s off Hb b Hb2 Hle)|].
   split; [exact (top_lines_span s off Hb b Hb2 Hle)|].
   split; [exact (top_lines s off Hb b Hb2 Hle)|].
-  split; [exact (top_render_span s off Hb b Hb2 Hle)|].
-  exact (top_render_span_no_panic s off Hb b Hb2 Hle).
+  split; [exact (top_render_span fx s off Hb b Hb2 Hle)|].
+  exact (top_render_span_no_panic fx s off Hb b Hb2 Hle).
 Qed.
 
 (* LineIndex::line_col uses slice::partition_point inside its specification: the offsets are sorted *)
@@ -108,25 +112,47 @@ Proof.
   exists [a_; CR], []. split; [reflexivity|]. intros H. destruct (H []) as ([|] & H1 & H2); [vm_compute in H1; discriminate|vm_compute in H2; discriminate].
 Qed.
 
-(* K2 "\nab\ncd" span 0..2 (raw continued line), K3 "ab\ncd" span 0..3 (following line shown, labelled 1),
-   K4 "ab" span 2..2 (no text, marker at column 1), and K1 again for a span: "a\rb" span 2..3 *)
+(* shipped code (fx = false): K2 "\nab\ncd" span 0..2 (raw continued line), K3 "ab\ncd" span 0..3 (following
+   line shown, labelled 1), K4 "ab" span 2..2 (no text, marker at column 1), and K1 again for a span: "a\rb" span 2..3 *)
+Definition span_refuted_on (fx : bool) (ws : list (str * str * str)) : Prop :=
+  forall w, In w ws -> let '(p, m, q) := w in KnownClass_span fx p m q = true /\ ~ span_render_ok fx p m q.
 Definition C10_span_refuted_statement : Prop :=
-  forall w, In w [ ([], [LF; a_], [b_; LF; c_; d_]); ([], [a_; b_; LF], [c_; d_]); ([a_; b_], [], []); ([a_; CR], [b_], []) ] ->
-    let '(p, m, q) := w in KnownClass_span p m q = true /\ ~ span_render_ok p m q.
+  span_refuted_on false [ ([], [LF; a_], [b_; LF; c_; d_]); ([], [a_; b_; LF], [c_; d_]); ([a_; b_], [], []); ([a_; CR], [b_], []) ].
+Lemma span_refute fx p m q :
+  (forall out, render_span fx (p ++ m ++ q) (blen p, blen p + blen m) [] = Ok out -> span_shows p m q [] out = false) ->
+  ~ span_render_ok fx p m q.
+Proof. intros Hf H. destruct (H [] eq_refl) as (out & E & S). rewrite (Hf out E) in S. discriminate. Qed.
 Theorem C10_span_refuted : C10_span_refuted_statement.
 Proof.
   intros w Hw. cbn [In] in Hw.
-  assert (T : forall p m q, (forall out, render_span (p ++ m ++ q) (blen p, blen p + blen m) [] = Ok out ->
-                                         span_shows p m q [] out = false) -> ~ span_render_ok p m q).
-  { intros p m q Hf H. destruct (H [] eq_refl) as (out & E & S). rewrite (Hf out E) in S. discriminate. }
-  destruct Hw as [<-|[<-|[<-|[<-|[]]]]]; (split; [reflexivity|]); apply T; intros out E;
+  destruct Hw as [<-|[<-|[<-|[<-|[]]]]]; (split; [reflexivity|]); apply span_refute; intros out E;
     vm_compute in E; inversion E; subst out; vm_compute; reflexivity.
 Qed.
 
-Definition C10_statement_refuted_statement : Prop := ~ C10_statement.
+(* patched code (fx = true): K1, K3 and K4 remain; the K2 witness now renders correctly and the class is empty *)
+Definition C10_span_refuted_patched_statement : Prop :=
+  span_refuted_on true [ ([], [a_; b_; LF], [c_; d_]); ([a_; b_], [], []); ([a_; CR], [b_], []) ].
+Theorem C10_span_refuted_patched : C10_span_refuted_patched_statement.
+Proof.
+  intros w Hw. cbn [In] in Hw.
+  destruct Hw as [<-|[<-|[<-|[]]]]; (split; [reflexivity|]); apply span_refute; intros out E;
+    vm_compute in E; inversion E; subst out; vm_compute; reflexivity.
+Qed.
+Definition C10_K2_empty_when_patched_statement : Prop :=
+  (forall p m q, KnownClass_span true p m q = true -> KnownClass_span false p m q = true) /\
+  KnownClass_span true [] [LF; a_] [b_; LF; c_; d_] = false /\
+  span_render_ok true [] [LF; a_] [b_; LF; c_; d_].
+Theorem C10_K2_empty_when_patched : C10_K2_empty_when_patched_statement.
+Proof.
+  split; [|split; [reflexivity|apply span_render_correct; reflexivity]].
+  intros p m q. unfold KnownClass_span. cbn [negb andb]. rewrite !orb_true_iff.
+  intros [[[H|H]|H]|H]; [tauto|discriminate|tauto|tauto].
+Qed.
+
+Definition C10_statement_refuted_statement : Prop := forall fx, ~ C10_statement fx.
 Theorem C10_statement_refuted : C10_statement_refuted_statement.
 Proof.
-  intros H. destruct C10_K1_refuted as (p & q & _ & Hn).
+  intros fx H. destruct C10_K1_refuted as (p & q & _ & Hn).
   assert (Hb : boundary (p ++ q) (blen p)) by (now exists p, q).
   destruct (H (p ++ q) (blen p) Hb) as (_ & _ & _ & _ & _ & Hr & _).
   rewrite before_app, after_app in Hr. exact (Hn Hr).
@@ -150,9 +176,9 @@ Example C10_ex_lines_span :
   lines_span [a_; b_; LF; c_; d_; LF; 101%N; 102%N; 103%N; 104%N] (1, 9) = Ok [(0, 3); (3, 6); (6, 10)].
 Proof. vm_compute. reflexivity. Qed.
 Example C10_ex_render_span_shows :
-  exists out, render_span [a_; b_; LF; c_; d_; LF; 101%N; 102%N; 103%N; 104%N] (1, 9) (lit "m") = Ok out /\
+  exists out, render_span false [a_; b_; LF; c_; d_; LF; 101%N; 102%N; 103%N; 104%N] (1, 9) (lit "m") = Ok out /\
               span_shows [a_] [b_; LF; c_; d_; LF; 101%N; 102%N; 103%N] [104%N] (lit "m") out = true /\
-              KnownClass_span [a_] [b_; LF; c_; d_; LF; 101%N; 102%N; 103%N] [104%N] = false.
+              KnownClass_span false [a_] [b_; LF; c_; d_; LF; 101%N; 102%N; 103%N] [104%N] = false.
 Proof. eexists. split; [vm_compute; reflexivity|]. split; vm_compute; reflexivity. Qed.
 (* "a\txbc" offset 2 (error.rs test underline_with_tabs): the tab is kept in the marker row *)
 Example C10_ex_render_pos :
@@ -166,4 +192,6 @@ Print Assumptions C10_partition_point_precondition.
 Print Assumptions C10_span_get_merge.
 Print Assumptions C10_K1_refuted.
 Print Assumptions C10_span_refuted.
+Print Assumptions C10_span_refuted_patched.
+Print Assumptions C10_K2_empty_when_patched.
 Print Assumptions C10_statement_refuted.
